@@ -3,7 +3,7 @@
    tools/props/c18.py from Common/CTables.v).  Memory safety of ctraits.c as a whole is NOT a
    theorem here (no C semantics): it is searched for by sanitised execution. *)
 From Coq Require Import ZArith List Bool Lia.
-From TV Require Import Common.Harness Common.CTables C18.Model C18.Law C18.Proofs.
+From TV Require Import Common.Harness Common.CTables C18.Model C18.Law C18.Proofs C18.Tuple.
 Import ListNotations.
 Open Scope Z_scope.
 
@@ -53,6 +53,16 @@ Theorem setstate_leak_refuted :
   exists (old new : list atom) (a : atom), net (setstate_ledger old new) a <> held new a - held old a.
 Proof. exists [7], [7], 7. vm_compute. discriminate. Qed.
 Print Assumptions setstate_leak_refuted.
+
+(* validate_trait_tuple_check (the loop that validates the items of a tuple, allocating the result tuple at
+   the first changed item and back-filling the unchanged leading items): every reference the loop creates
+   is owned by the result — one per slot of a new tuple, one for an unchanged value, none on failure — for
+   every tuple, every combination of item validators and every position of the first changed item *)
+Theorem tuple_validation_neutral :
+  forall (tv : atom) (items : list (atom * ivres)) (a : atom),
+    net (snd (tuple_check tv items)) a = owned tv (fst (tuple_check tv items)) a.
+Proof. exact tuple_check_neutral. Qed.
+Print Assumptions tuple_validation_neutral.
 
 (* general form of T3's obligations (instantiated on the regenerated tables at run time):
    any tables passing the boolean check make func_index terminate inside the searched table for
